@@ -143,12 +143,7 @@ _prog_cache = {}
 
 
 def compile_prog(term):
-    p = _prog_cache.get(term)
-    if p is None:
-        if len(_prog_cache) > 20000:
-            _prog_cache.clear()
-        p = _prog_cache[term] = Prog(term)
-    return p
+    return Prog(term)
 
 
 # --------------------------------------------------------------------------------------------------
@@ -207,12 +202,12 @@ class R1(object):
         self.sv = {"S0": 0, "S1": 0, "P0": 0}
         self.in_shared = 0
         self.unsupported = None
+        self.now = 0  # critical-path clock: number of sequential flush rounds needed so far
+        self.crit = None
 
     def run(self):
-        try:
-            r = self.task(self.prog.root)
-        except RecursionError:
-            raise
+        r = self.task(self.prog.root)
+        self.crit = r[2]
         if r[0] == "v":
             return ("ok", r[1])
         return ("err", r[1])
@@ -221,13 +216,17 @@ class R1(object):
         self.started.add(tc.tid)
         self.steps[tc.tid] = 1
         rec, made = [], []
+        saved = self.now
         try:
             self.block(tc, tc.stmts, rec, made)
         except _R1Err as e:
-            return ("e", e.t)
+            return ("e", e.t, self.now)
         except _R1Result as r:
-            return ("v", r.v)
-        return ("v", ("t", tc.tid, tuple(rec)))
+            return ("v", r.v, self.now)
+        finally:
+            end = self.now
+            self.now = saved
+        return ("v", ("t", tc.tid, tuple(rec)), end)
 
     def block(self, tc, stmts, rec, made):
         for st in stmts:
@@ -236,6 +235,9 @@ class R1(object):
                 leaves = []
                 shape = self.struct(tc, st[2], made, leaves)
                 self.steps[tc.tid] += 1
+                for r in leaves:
+                    if r[2] > self.now:
+                        self.now = r[2]
                 for r in leaves:
                     if r[0] == "e":
                         raise _R1Err(r[1])
@@ -263,6 +265,8 @@ class R1(object):
                     self.block(tc, st[3], rec, made)
             elif op == "sync":
                 r = self.task(st[2])
+                if r[2] > self.now:
+                    self.now = r[2]
                 if r[0] == "e":
                     raise _R1Err(r[1])
                 rec.append(r[1])
@@ -279,6 +283,7 @@ class R1(object):
                 made.append(self.leaf_lazy(tc, st[2]))
             elif op == "iv":
                 r = self.item(st[2], st[3], "ok")
+                self.now = r[2]
                 if r[0] == "e":
                     raise _R1Err(r[1])
                 rec.append(r[1])
@@ -298,16 +303,19 @@ class R1(object):
 
     def item(self, kind, lid, mode):
         fm = self.prog.flushmodes.get(kind, "ok")
+        t = self.now + 1
         if fm == "raise":
-            return ("e", ("flush", kind))
+            return ("e", ("flush", kind), t)
         if fm == "raiseB":
-            return ("e", ("flushB", kind))
+            return ("e", ("flushB", kind), t)
         if mode == "ok":
-            return ("v", ("i", lid))
+            return ("v", ("i", lid), t)
         if mode == "err":
-            return ("e", ("item", lid))
+            return ("e", ("item", lid), t)
         if mode == "unset":
-            return ("e", ("exc", "AssertionError"))
+            if fm == "setraise":
+                return ("e", ("flushlate", kind), t)
+            return ("e", ("exc", "AssertionError"), t)
         raise ValueError(mode)
 
     def leaf(self, tc, lf, made):
@@ -317,17 +325,17 @@ class R1(object):
         if op == "i":
             return self.item(lf[2], lf[1], lf[3])
         if op == "k":
-            return ("v", ("k", lf[1]))
+            return ("v", ("k", lf[1]), 0)
         if op == "n":
-            return ("v", None)
+            return ("v", None, 0)
         if op == "ef":
-            return ("e", ("ef", lf[1]))
+            return ("e", ("ef", lf[1]), 0)
         if op == "nf":
-            return ("e", ("exc", "TypeError"))
+            return ("e", ("exc", "TypeError"), 0)
         if op == "lz":
             if lf[2] == "ok":
-                return ("v", ("z", lf[1]))
-            return ("e", ("lz", lf[1]))
+                return ("v", ("z", lf[1]), 0)
+            return ("e", ("lz", lf[1]), 0)
         if op == "sh":
             idx = lf[2]
             if idx not in self.shared_memo:
@@ -338,7 +346,9 @@ class R1(object):
                     self.in_shared -= 1
             return self.shared_memo[idx]
         if op == "re":
-            return made[lf[2]]()
+            if not made:
+                return ("v", None, 0)
+            return made[lf[2] % len(made)]()
         raise ValueError(op)
 
     def struct(self, tc, s, made, leaves):
@@ -355,7 +365,7 @@ class R1(object):
             subs = [(k, self.struct(tc, x, made, leaves)) for k, x in s[1]]
             return lambda: {k: f() for k, f in subs}
         if op == "re":
-            r = made[s[2]]()
+            r = made[s[2] % len(made)]() if made else ("v", None, 0)
         else:
             cell = []
             r = self.leaf(tc, s, made)
